@@ -861,7 +861,6 @@ func sameLoop(a, b ssa.Instruction) bool {
 	return reachableFrom(a, b) && reachableFrom(b, a)
 }
 
-
 // funnelBody: the function that holds the durability call of funnel f: f
 // itself, or the private helper / closure of f that the body was moved into.
 func funnelBody(c *Ctx, f *ssa.Function, dur func(*ssa.Function) bool) Scope {
